@@ -183,3 +183,14 @@ Proof.
         (conj (tie_pn_merge a b) (fun Wp Wn => proj1 (tie_pn_value c Wp Wn))))).
 Qed.
 Print Assumptions c18_code_pncounter_refines.
+
+(** VectorClock.happened_before as regenerated from logical_clocks.py (a loop with
+    break over a set union, whose iteration order is a parameter) decides the
+    history's happened-before relation on the clocks' snapshots. *)
+Theorem c18_code_happened_before_decides : forall tr ts, stamps vector_code tr = Some ts ->
+  forall i j ti tj, nth_error ts i = Some ti -> nth_error ts j = Some tj ->
+  forall a b order, VectorClock__vector a = ti -> VectorClock__vector b = tj ->
+  (forall k, In k order <-> In k (VectorClock_happened_before_setiter_elems a b)) ->
+  (VectorClock_happened_before a b order = true <-> hb tr i j).
+Proof. exact vector_code_happened_before. Qed.
+Print Assumptions c18_code_happened_before_decides.
